@@ -187,7 +187,9 @@ def float_to_fix(signed, n_bits, n_frac):
         if value < 0:
             fp_val = (1 << n_bits) + int(value * 2**n_frac)
         else:
-            fp_val = int(value * 2**n_frac)
+            # NB: max_v may not be exactly representable as a float
+            fp_val = min(int(value * 2**n_frac),
+                         (1 << (n_bits - 1 if signed else n_bits)) - 1)
 
         assert 0 <= fp_val < 1 << (n_bits + 1)
         return fp_val & mask
